@@ -16,10 +16,10 @@ from lib import tlc  # noqa: E402
 UNIT = 1.0 / 64.0
 
 CFG_KEYS = ['NP', 'NL', 'MAXITER', 'NSW', 'PRED', 'JAC', 'A2D', 'MAXR', 'CRASH', 'RFF', 'OW', 'ENDDEP', 'T0', 'TEND',
-            'DT0']
+            'DT0', 'REUSE']
 
 DEFAULT_CFG = dict(NP=2, NL=1, MAXITER=3, NSW=[1], PRED='none', JAC=True, A2D=False, MAXR=2, CRASH=True, RFF=False,
-                   OW=True, ENDDEP=False, T0=0, TEND=8, DT0=4)
+                   OW=True, ENDDEP=False, T0=0, TEND=8, DT0=4, REUSE=False)
 
 
 def cfg_key(cfg):
@@ -102,13 +102,21 @@ def build(cfg):
 def run_one(cfg, script, tid=0, default=None):
     desc, cp = build(cfg)
     t_init = cfg['T0'] * UNIT + (1.0 if cfg.get('dae') else 0.0)
+    prelude = None
+    if cfg.get('REUSE'):
+        # the controller is used before: a run over one full block and one block of NP//2 steps whose steps are told to halve
+        # their step size -- afterwards the steps that sat out the last block still hold DT0, the others DT0/2
+        NP = cfg['NP']
+        half = max(1, NP // 2)
+        prelude = dict(t0=0.0, Tend=(NP + half) * cfg['DT0'] * UNIT,
+                       script=[dict(res=True)] * NP + [dict(res=True, dtn=cfg['DT0'] // 2)] * half + [dict(res=True)] * 8)
     rec, out = run_traced(desc, cp, cfg['NP'], lambda P: P.u_exact(t_init), t_init, t_init + (cfg['TEND'] - cfg['T0']) * UNIT,
                           unit=UNIT, script=script, mode='lattice', default=default,
-                          defect_check=not (cfg.get('sweeper') or cfg.get('dae')))
+                          defect_check=not (cfg.get('sweeper') or cfg.get('dae')), prelude=prelude)
     script = rec.script[:rec.pos] if rec.script is not None else script
     lines = rec.lines
     if lines and lines[-1]['k'] == 'end':
-        lines[-1]['fixed'] = all((not o.get('rs')) and not o.get('dtn') and not o.get('dtm') for o in (script or []))
+        lines[-1]['fixed'] = (not cfg.get('REUSE')) and all((not o.get('rs')) and not o.get('dtn') and not o.get('dtm') for o in (script or []))
     return dict(tid=tid, cfg=cfg, ev=lines, consumed=rec.pos, exhausted=rec.script_exhausted, errors=rec.errors,
                 exc=out['exc'], exc_msg=out.get('exc_msg'), script=script)
 
